@@ -287,7 +287,7 @@ func evalC01(c c01Case, o *Obs) error {
 					okNet = true
 				}
 			}
-			if !okNet {
+			if !okNet && c.Net < nBuiltinNets { // for a caller-made network the library has no way from the byte to the prefix
 				return fmt.Errorf("%s on %s: AddressPubKeyHash() = %q is not the P2PKH address of that key on any network with identifier byte %#x",
 					name, nets[c.Net].Name, pkh.EncodeAddress(), p.LegacyPubKeyHashAddrID)
 			}
@@ -308,13 +308,24 @@ func c01PayloadLen(kind int) (fixed int, script bool, scalar bool) {
 	return 20, false, false
 }
 
+// genSlpNet draws a network that has an SLP prefix (simnet has none).
+func genSlpNet(t *rapid.T, label string) int {
+	var withSlp []int
+	for i, ni := range nets {
+		if ni.Params.SlpAddressPrefix != "" {
+			withSlp = append(withSlp, i)
+		}
+	}
+	return rapid.SampledFrom(withSlp).Draw(t, label)
+}
+
 var kC01 = register(&Kind[c01Case]{
 	Prop: "C01", Name: "addr",
 	Gen: func(t *rapid.T) c01Case {
 		k := rapid.IntRange(0, akCount-1).Draw(t, "kind")
 		n := genNet(t)
 		if isSlpKind(k) {
-			n = rapid.IntRange(0, len(nets)-2).Draw(t, "slpnet") // simnet (last) has no SLP prefix
+			n = genSlpNet(t, "slpnet")
 		}
 		c := c01Case{Kind: k, KindStr: akNames[k], Net: n}
 		fixed, script, scalar := c01PayloadLen(k)
